@@ -59,7 +59,43 @@ fn start_watchdog(id: &'static str) {
     });
 }
 
+/// re-run one journaled case (see watch.rs / main.rs supervise): every string-level entry point
+/// the string sweeps of C04 / C05 / C12 use, or a fold of a JSON lexical value
+pub fn probe(_id: &str, tag: &str, what: &str) {
+    if let Some(fmt) = tag.strip_prefix("fold:") {
+        let f = crate::fmts::by_name(fmt);
+        let j: serde_json::Value = serde_json::from_str(what).unwrap_or(serde_json::Value::Null);
+        let x = c02::ln_from_json(&j);
+        let _ = c05::case_fold(&f, &x);
+        let _ = c12::case_fold(&f, &x);
+        return;
+    }
+    if tag.is_empty() {
+        return;
+    }
+    let f = crate::fmts::by_name(tag);
+    for e in c04::ENTRIES {
+        let _ = c04::case(&f, e, what);
+    }
+    for e in ["parse", "parse_term"] {
+        let _ = c05::case_parse(&f, e, what);
+    }
+    let _ = c12::case_parse(&f, what);
+    let _ = c12::case_text_fold(&f, what);
+}
+
 pub fn replay_case(id: &str, op: &str, case: &serde_json::Value) -> Result<(), String> {
+    if op == "crash" {
+        // run the probe in a subprocess: the case is expected to kill it
+        let exe = std::env::current_exe().map_err(|e| e.to_string())?;
+        let probe = format!("/verif/target/probe-replay-{id}.json");
+        std::fs::write(&probe, serde_json::json!({"tag": case["tag"], "what": case["what"]}).to_string()).map_err(|e| e.to_string())?;
+        let st = std::process::Command::new(exe).args([id, "--probe", probe.as_str()]).env("NVCHECK_CHILD", "1").status().map_err(|e| e.to_string())?;
+        return if st.code() == Some(0) { Ok(()) } else { Err(format!("the probe process dies: {st}")) };
+    }
+    if op == "hang" {
+        return Err("recorded non-termination; re-run the check to re-evaluate".into());
+    }
     match (id, op) {
         (_, "enum_roundtrip") => c01::replay_case(case),
         (_, "lexical_roundtrip") => c02::replay_case(case),
